@@ -57,7 +57,8 @@ def readFrame (bytes : List UInt8) : ReadRes :=
 
 /-- How a byte stream ends after its last whole frame. -/
 inductive Tail where
-  | clean
+  | boundary    -- the bytes end exactly on a frame boundary. NOT a success for the reader: the next `read_exact`
+                -- waits for more bytes, and on EOF fails with `HeaderIoError` like any other cut (`Model/ConnIO.lean`)
   | cutInHeader (got : Nat)
   | cutInBody (missing : Nat) (length : Nat)
   | badHeader (why : BadHeader)
@@ -89,7 +90,7 @@ def readFrames (bytes : List UInt8) : List Frame × Tail :=
     have : rest.length < bytes.length := readFrame_rest_lt h
     let (fs, t) := readFrames rest
     (f :: fs, t)
-  | .empty => ([], .clean)
+  | .empty => ([], .boundary)
   | .cutInHeader n => ([], .cutInHeader n)
   | .cutInBody m l => ([], .cutInBody m l)
   | .bad w => ([], .badHeader w)
